@@ -138,6 +138,16 @@ func DistMatrix(al align.Alignment, weights []float64, model DistModel, range1Mi
 	uncompute := make([]seqpairdist, 0, 100)
 	var mux sync.Mutex
 
+	// First error met by the goroutines below (protected by mux)
+	var firsterr error
+	seterr := func(e error) {
+		mux.Lock()
+		if firsterr == nil {
+			firsterr = e
+		}
+		mux.Unlock()
+	}
+
 	outmatrix = make([][]float64, al.NbSequences())
 	for i := 0; i < al.NbSequences(); i++ {
 		outmatrix[i] = make([]float64, al.NbSequences())
@@ -146,29 +156,32 @@ func DistMatrix(al align.Alignment, weights []float64, model DistModel, range1Mi
 	go func() {
 		defer close(distchan)
 		var seq1, seq2 []uint8
+		var perr error
 		if range1Min >= 0 && range1Max >= 0 && range2Min >= 0 && range2Max >= 0 {
 			if range1Max >= al.NbSequences() {
 				range1Max = al.NbSequences() - 1
 			}
 			if range1Min > range1Max {
-				err = fmt.Errorf("range 1 min is greater than range 1 max")
+				seterr(fmt.Errorf("range 1 min is greater than range 1 max"))
 				return
 			}
 			if range2Max >= al.NbSequences() {
 				range2Max = al.NbSequences() - 1
 			}
 			if range2Min > range2Max {
-				err = fmt.Errorf("range 2 min is greater than range 2 max")
+				seterr(fmt.Errorf("range 2 min is greater than range 2 max"))
 				return
 			}
 
 			for i := range1Min; i <= range1Max; i++ {
-				if seq1, err = model.Sequence(i); err != nil {
+				if seq1, perr = model.Sequence(i); perr != nil {
+					seterr(perr)
 					return
 				}
 				for j := range2Min; j <= range2Max; j++ {
 					if j != i {
-						if seq2, err = model.Sequence(j); err != nil {
+						if seq2, perr = model.Sequence(j); perr != nil {
+							seterr(perr)
 							return
 						}
 						distchan <- seqpairdist{i, j, seq1, seq2, model, weights}
@@ -177,11 +190,13 @@ func DistMatrix(al align.Alignment, weights []float64, model DistModel, range1Mi
 			}
 		} else {
 			for i := 0; i < al.NbSequences(); i++ {
-				if seq1, err = model.Sequence(i); err != nil {
+				if seq1, perr = model.Sequence(i); perr != nil {
+					seterr(perr)
 					return
 				}
 				for j := i + 1; j < al.NbSequences(); j++ {
-					if seq2, err = model.Sequence(j); err != nil {
+					if seq2, perr = model.Sequence(j); perr != nil {
+						seterr(perr)
 						return
 					}
 					distchan <- seqpairdist{i, j, seq1, seq2, model, weights}
@@ -189,36 +204,46 @@ func DistMatrix(al align.Alignment, weights []float64, model DistModel, range1Mi
 			}
 		}
 	}()
-	if err != nil {
-		return
-	}
 
 	var wg sync.WaitGroup
 	max := 0.0
 	for cpu := 0; cpu < cpus; cpu++ {
 		wg.Add(1)
 		go func() {
+			defer wg.Done()
 			for sp := range distchan {
 				if sp.i == sp.j {
 					outmatrix[sp.i][sp.i] = 0
 				} else {
-					if outmatrix[sp.i][sp.j], err = model.Distance(sp.seq1, sp.seq2, sp.weights); err != nil {
+					d, werr := model.Distance(sp.seq1, sp.seq2, sp.weights)
+					if werr != nil {
+						seterr(werr)
 						return
 					}
-					outmatrix[sp.j][sp.i] = outmatrix[sp.i][sp.j]
+					outmatrix[sp.i][sp.j] = d
+					outmatrix[sp.j][sp.i] = d
 					mux.Lock()
-					if outmatrix[sp.i][sp.j] < 0 || outmatrix[sp.i][sp.j] == math.Inf(1) || outmatrix[sp.i][sp.j] > NT_DIST_OVER {
+					if d < 0 || d == math.Inf(1) || d > NT_DIST_OVER {
 						uncompute = append(uncompute, seqpairdist{sp.i, sp.j, nil, nil, nil, nil})
-					} else if outmatrix[sp.i][sp.j] > max {
-						max = outmatrix[sp.i][sp.j]
+					} else if d > max {
+						max = d
 					}
 					mux.Unlock()
 				}
 			}
-			wg.Done()
 		}()
 	}
 	wg.Wait()
+	// If a worker stopped on an error, pairs may remain:
+	// we read them so that the producer can terminate
+	for range distchan {
+	}
+	mux.Lock()
+	err = firsterr
+	mux.Unlock()
+	if err != nil {
+		return
+	}
 
 	for _, sp := range uncompute {
 		outmatrix[sp.i][sp.j] = 2 * max
